@@ -124,7 +124,7 @@ func copyElems(in []group.Element) []group.Element {
 	return out
 }
 
-func hx(b []byte) string { return vlib.Hex(b) }
+func hxs(b []byte) string { return vlib.Hex(b) }
 
 func fixture(name string) string {
 	return filepath.Join(vlib.Harness, "zz_verif", "c16", "testdata", name)
@@ -295,5 +295,4 @@ func TestC16RefSelftest(t *testing.T) {
 		}
 	}
 	vlib.Selftest("ref-rfc9497", "ok")
-	vlib.Selftest("ref-rfc9497 (12 suite×mode entries, 32 vectors: DeriveKeyPair, Blind, BlindEvaluate, GenerateProof, VerifyProof, Finalize, Evaluate)", "ok")
 }
